@@ -335,8 +335,59 @@ pub fn bufcap(rng: &mut Rng) -> Option<usize> {
     if rng.chance(1, 2) {
         None
     } else {
-        Some(*rng.pick(&[0usize, 1, 2, 3, 7, 8, 16, 17, 64, 255, 256, 257, 300]))
+        // a third of the buffered runs draws the capacity uniformly: the
+        // fill level at which a large write arrives matters (a buffer that
+        // has 1 or 2 spare bytes after a 256-byte index behaves differently
+        // from one that has none or plenty)
+        if rng.chance(1, 3) {
+            Some(rng.urange(1, 1200))
+        } else {
+            Some(*rng.pick(&[0usize, 1, 2, 3, 7, 8, 16, 17, 64, 255, 256, 257, 300]))
+        }
     }
+}
+
+/// Insert calls that the ordering contract rejects between the legal calls
+/// of `ops` (the accepted sequence stays the same): duplicates of the last
+/// key with smaller / larger / equal values and keys below the last key.
+pub fn with_rejected_noise(rng: &mut Rng, front: Front, ops: &[Op]) -> Vec<Op> {
+    let mut out = Vec::new();
+    let mut last: Option<(Vec<u8>, u64)> = None;
+    for op in ops {
+        out.push(op.clone());
+        match op {
+            Op::Ins(k, v) => last = Some((k.clone(), *v)),
+            Op::Add(k) => last = Some((k.clone(), 0)),
+            Op::ExtIter(it) | Op::ExtStream(it, _) => {
+                if let Some(x) = it.last() {
+                    last = Some(x.clone());
+                }
+            }
+        }
+        if let Some((k, v)) = &last {
+            if rng.chance(1, 3) {
+                match rng.below(4) {
+                    // duplicate of the last key (rejected by map/raw insert;
+                    // a no-op for a set)
+                    0 => out.push(Op::Ins(k.clone(), v.saturating_sub(1 + rng.below(5)))),
+                    1 => out.push(Op::Ins(k.clone(), v.saturating_add(1 + rng.below(5)))),
+                    2 => out.push(Op::Ins(k.clone(), *v)),
+                    // a key below the last one
+                    _ => {
+                        if !k.is_empty() {
+                            let cut = rng.usize_below(k.len());
+                            out.push(if front == Front::Raw && rng.chance(1, 2) {
+                                Op::Add(k[..cut].to_vec())
+                            } else {
+                                Op::Ins(k[..cut].to_vec(), 7)
+                            });
+                        }
+                    }
+                }
+            }
+        }
+    }
+    out
 }
 
 pub fn prefill(rng: &mut Rng) -> Vec<u8> {
